@@ -1373,11 +1373,12 @@ def run_propagation(ctx, runner, rng, tier):
         stats["propagation_lockstep_compared"] += 1
         mord, _, mflag = mo.rpartition(" ")
         eo, fl = expect(case, mord, 2 ** case["g"])
+        fl = {k: v for k, v in fl.items() if k != "exact"}     # ASE keeps momenta: v -> m v -> (m v) / m is exact only to the last ulp
         if not (close(eo, ev["orders"][0], fl) and mflag == str(int(ev["flags"][0]))):
             stats["propagation_lockstep_disagreements"] += 1
             if not ev["fails"]:
                 pending.append(dict(payload, expected_from_model=eo, model_flag=mflag))
-    found = bool(nrep)
+    found = bool(nrep) or any(f for _, _, f in ctx.violations)
     for cat in nrep:
         for _, _, msg, pl in sorted(nrep[cat], key=lambda x: x[:2])[:MAXREP - 1]:
             ctx.violation("C20 statement fails on the implementation: " + msg, dict(pl, failing_cases_in_this_category=len(nrep[cat])), True)
